@@ -102,9 +102,12 @@ func (r DIDKeyResolver) baseUrl(doc *did.Document) (baseUrl *string) {
 	for i := range context {
 		ctx := context[i]
 		if reflect.ValueOf(ctx).Kind() == reflect.Map {
-			m := ctx.(map[string]interface{})
-			if val, ok := m["@base"]; ok {
-				valStr := val.(string)
+			m, ok := ctx.(map[string]interface{})
+			if !ok {
+				continue
+			}
+			// @base of any other type than string (the document comes from a remote party) is ignored
+			if valStr, ok := m["@base"].(string); ok {
 				baseUrl = &valStr
 				break
 			}
